@@ -110,6 +110,11 @@ def run(c, a):
         t.start()
     # ---- 2. candidates annotated by TLC
     cands = candidates(c.tier, c.seed)
+    if a.replay:
+        case = json.load(open(a.replay))["case"]
+        cands = [x for x in cands if x["key"] == "ssh" and x["val"] == "238609294" and x["mode"] == "default"][:1]
+        cands.append(dict(case, n=2, id=2))
+        cands[0].update(n=1, id=1)
     ann = {}
 
     def on_line(line):
@@ -124,19 +129,9 @@ def run(c, a):
           files={"cases.ndjson": "".join(json.dumps(x) + "\n" for x in cands)})
     if len(ann) != len(cands):
         raise Broken("candidate annotation incomplete: %d of %d" % (len(ann), len(cands)))
-    phase_a, phase_b = [], []
-    for x in cands:
-        an = ann[x["n"]]
-        x["big"] = max(an["allocCurK"], an["allocFixedK"]) > 32 * 1024      # > 128 MB: run few at a time
-        if an["allocCurK"] > LIMIT_K:
-            x["skip"] = "pinned arithmetic would allocate %d Ki counters" % an["allocCurK"]
-        elif an["allocFixedK"] <= LIMIT_K:
-            phase_a.append(x)
-        else:
-            phase_b.append(x)
-    sentinel = [x for x in phase_a if x["key"] == "ssh" and x["val"] == "238609294" and x["mode"] == "default"]
+    sentinel = [x for x in cands if x["key"] == "ssh" and x["val"] == "238609294" and x["mode"] == "default"]
     if not sentinel:
-        raise Broken("sentinel probe 238609294 missing from phase A")
+        raise Broken("sentinel probe 238609294 missing")
     binpath = c.go_test_build("proxy", HARNESS, name="streamobs")
     # memory safety net for the probing processes (address space, DESIGN 3.9)
     wrapper = os.path.join(c.scratch, "streamobs-limited.sh")
@@ -172,21 +167,26 @@ def run(c, a):
                     raise Broken("harness shard failed rc=%s: %s" % (rc, out[-1500:]))
             events += evs
         return events
-    events = probe(phase_a, "a")
-    by_id = {}
-    for e in events:
-        by_id.setdefault(e["id"], {})[e["ev"]] = e
-    s_res = by_id.get(sentinel[0]["id"], {}).get("Result", {})
-    wraps = s_res.get("result") == "rejected" and s_res.get("panic")
-    skipped = [x for x in cands if "skip" in x]
-    if phase_b:
-        if wraps:
-            events += probe(phase_b, "b")
+    # phase 0: the sentinel alone (cheap under both arithmetics) tells which growth arithmetic the tree has, and with it
+    # which probes fit the memory limit
+    sentinel[0]["big"] = False
+    events = probe(sentinel, "s")
+    s_res = [e for e in events if e["ev"] == "Result"]
+    wraps = bool(s_res) and s_res[0].get("result") == "rejected" and bool(s_res[0].get("panic"))
+    alloc_key = "allocCurK" if wraps else "allocFixedK"
+    main, skipped = [], []
+    for x in cands:
+        if x is sentinel[0]:
+            continue
+        k = ann[x["n"]][alloc_key]
+        x["big"] = k > 32 * 1024                                  # > 128 MB: two at a time
+        if k > LIMIT_K:
+            x["skip"] = ("the tree serves shard id 238609294, so growth is proportional to the id: " if not wraps else
+                         "") + "%d Ki counters" % k
+            skipped.append(x)
         else:
-            for x in phase_b:
-                x["skip"] = "the tree serves shard id 238609294, so growth is proportional to the id: %d Ki counters" \
-                            % ann[x["n"]]["allocFixedK"]
-            skipped += phase_b
+            main.append(x)
+    events += probe(main, "m")
     for t in ths:
         t.join()
     design_pred_leak = False
@@ -229,14 +229,13 @@ def run(c, a):
         for b in bad:
             clause_count[b] = clause_count.get(b, 0) + 1
         o = p["Open"]
-        if "predleak" in fl and o["key"] == "ssh":
-            cause = "observer-grow-overflow-lock-leak"
-        elif "crash" in fl:
+        if "crash" in fl:
             cause = "process-crash"
+        elif "predleak" in fl and o["key"] == "ssh":
+            cause = "observer-grow-overflow-lock-leak"
         else:
-            cause = "unpredicted-%s-key-%s" % ("-".join(bad), o["key"])
-        c.violation({"module": "StreamObs", "cause": cause, "clauses": "+".join(bad)} if cause != "observer-grow-overflow-lock-leak"
-                    else {"module": "StreamObs", "cause": cause},
+            cause = "unpredicted-key-%s" % o["key"]
+        c.violation({"module": "StreamObs", "cause": cause, "clauses": "+".join(bad)},
                     "%s after opening a stream with %s=%r (mode %s, %s server): result %s, follow-up %s, printer %s"
                     % ("/".join(bad), o["key"], o["val"], o["mode"], o["srv"],
                        json.dumps({k: p.get("Result", {}).get(k) for k in ("result", "detail")}),
@@ -257,7 +256,7 @@ def run(c, a):
     c.coverage.update({
         "probes": nprobes, "probes_completed": len(complete), "probes_skipped_memory": len(skipped),
         "skipped": [dict(key=x["key"], val=x["val"], mode=x["mode"], why=x["skip"]) for x in skipped][:40],
-        "phase_b_run": bool(phase_b) and bool(wraps), "outcomes": outcomes, "violating_clauses": clause_count,
+        "growth_arithmetic_wraps": wraps, "outcomes": outcomes, "violating_clauses": clause_count,
         "probes_with_violation": len(viol_ids), "conforms_to_design_of": variant,
         "not_conforming_to_pinned_model": len(not_cur), "not_conforming_to_repaired_model": len(not_fixed),
         "design_predicts_lock_leak_for_pinned_code": design_pred_leak,
